@@ -866,7 +866,7 @@ impl Property for C09 {
             return Vec::new();
         }
         // every single-cut position, through direct writes (complete for this stream)
-        (1..rend.bytes.len())
+        let mut out: Vec<Sc> = (1..rend.bytes.len())
             .map(|k| Sc {
                 driver: Driver::Direct,
                 chunks: vec![k],
@@ -874,7 +874,67 @@ impl Property for C09 {
                 refeed: vec![],
                 ..sc.clone()
             })
-            .collect()
+            .collect();
+        // every fixed chunk size up to 64 (size 1 = byte-at-a-time)
+        let len = rend.bytes.len();
+        for s in 1..=64usize.min(len.saturating_sub(1)) {
+            out.push(Sc {
+                driver: Driver::Direct,
+                chunks: vec![s; len / s],
+                script: vec![],
+                refeed: vec![],
+                ..sc.clone()
+            });
+        }
+        // every PAIR of cuts, on a shortened copy of the stream (values clipped
+        // to three characters, at most two entries) so that the quadratic
+        // enumeration stays small; complete for that shortened stream
+        let every_pairs = if tier == Tier::Quick { 512 } else { 1024 };
+        if run % every_pairs == 0 {
+            let mut small = sc.clone();
+            small.entries.truncate(2);
+            if let Some(b) = &small.bad {
+                if b.index >= small.entries.len() {
+                    small.bad = None;
+                }
+            }
+            for e in small.entries.iter_mut() {
+                for (_, v) in e.iter_mut() {
+                    match v {
+                        Val::S(t) => *t = t.chars().take(3).collect(),
+                        Val::A(a) => {
+                            a.truncate(2);
+                            for t in a.iter_mut() {
+                                *t = t.chars().take(3).collect();
+                            }
+                        }
+                        Val::I(_) => {}
+                    }
+                }
+                // optional variables are dropped
+                let keep: Vec<usize> = e.keys().cloned().filter(|k| VARS[*k].required).collect();
+                e.retain(|k, _| keep.contains(k));
+            }
+            if let Some(Bad { kind: BadKind::MissingRequired { .. }, .. }) = &small.bad {
+                // still meaningful: the variable is removed at render time
+            }
+            let r2 = render(&small);
+            let n = r2.bytes.len();
+            if n <= 420 {
+                for a in 1..n {
+                    for b in a + 1..n {
+                        out.push(Sc {
+                            driver: Driver::Direct,
+                            chunks: vec![a, b - a],
+                            script: vec![],
+                            refeed: vec![],
+                            ..small.clone()
+                        });
+                    }
+                }
+            }
+        }
+        out
     }
 
     fn classify(&self, sc: &Sc, v: &Violation) -> String {
@@ -901,7 +961,9 @@ impl Property for C09 {
          writes), delivered directly or through std::io::copy from a scripted reader with EINTR, hard error or \
          early EOF. Non-trivial = more than one write call or an upstream fault; distinct = distinct schedule \
          signatures (hash of the sequence of write lengths/outcomes and reader events). For streams of at most \
-         700 bytes a subset of runs sweeps every single cut position (sweep_evaluations; complete for that stream)."
+         700 bytes a subset of runs sweeps every single cut position and every fixed chunk size 1..64, and a smaller \
+         subset sweeps every PAIR of cuts of a shortened copy of the stream (sweep_evaluations; each complete for \
+         that stream)."
             .to_string()
     }
     fn components_real(&self) -> Vec<&'static str> {
